@@ -34,7 +34,7 @@ func TestC14Binary(t *testing.T) {
 	_, expired, _ := auth.Encode(map[string]interface{}{"sub": "bin", "exp": time.Now().Add(-time.Hour).Unix()})
 	api := []struct{ method, path string }{{"GET", "/pipelines/"}, {"GET", "/pipelines/jobs"}, {"POST", "/pipelines/schedule"}, {"GET", "/job/detail?id=00000000-0000-0000-0000-000000000000"}, {"GET", "/job/logs?id=00000000-0000-0000-0000-000000000000&task=a"}, {"POST", "/job/cancel?id=00000000-0000-0000-0000-000000000000"}}
 	debug := []string{"/debug/pprof/", "/debug/pprof", "/debug/pprof/cmdline", "/debug/pprof/heap", "/debug/pprof/goroutine?debug=1", "/debug/vars", "/debug/", "/debug"}
-	others := []string{"/", "/metrics", "/pipelines", "/job", "/healthz", "/pprof"}
+	others := []string{"/", "/metrics", "/pipelines", "/job", "/healthz", "/pprof", "/debug/../pipelines/jobs", "/debug/pprof/../../pipelines/", "//pipelines/jobs", "/./pipelines/jobs", "/debug/%2e%2e/pipelines/jobs"}
 	rapid.Check(t, func(rt *rapid.T) {
 		dir := workDir(rt, "authbin")
 		defer os.RemoveAll(dir)
